@@ -237,22 +237,28 @@ func (c16) Run(c *wk.Case) {
 }
 
 // raw corpus: the map variable itself used as a value in an implicit-attribute program
-// (implicit text, explicit text, expected result on {x:10, y:3, l:[1,2,3], f:v->v*2+1})
+// (implicit text, explicit text, expected result on {x:10, y:3, l:[1,2,3], f:v->v*2+1, get:k->"closure:"+k, total:(...)->sum})
 func c16RawCorpus() [][3]string {
 	return [][3]string{
 		{"x+m.y", "m.x+m.y", "13"},
 		{"l.map(e->e*x+m.y).sum()", "m.l.map(e->e*m.x+m.y).sum()", "69"},
 		{"func g(a) a.x*y; g(m)", "func g(a) a.x*m.y; g(m)", "30"},
-		{"m.size()+x", "m.size()+m.x", "14"},
+		{"m.size()+x", "m.size()+m.x", "16"},
 		{"let q=m; q.x+y", "let q=m; q.x+m.y", "13"},
 		{"(p->p.y+x)(m)", "(p->p.y+m.x)(m)", "13"},
 		{"l.map(e->m.isAvail(\"x\") & x>e).string()", "m.l.map(e->m.isAvail(\"x\") & m.x>e).string()", "\"[true, true, true]\""},
-		{"m.map((k,v)->if k=\"l\" | k=\"f\" then 0 else v+y).x", "m.map((k,v)->if k=\"l\" | k=\"f\" then 0 else v+m.y).x", "13"},
+		{"m.map((k,v)->if k=\"x\" | k=\"y\" then v+y else 0).x", "m.map((k,v)->if k=\"x\" | k=\"y\" then v+m.y else 0).x", "13"},
 		// an attribute that holds a closure (f: v->v*2+1) is called
 		{"f(x)", "m.f(m.x)", "21"},
 		{"f(let t=x+1; t*y)", "m.f(let t=m.x+1; t*m.y)", "67"},
 		{"l.map(e->f(e)).sum()", "m.l.map(e->m.f(e)).sum()", "15"},
 		{"let h=f; h(y)+f(1)", "let h=m.f; h(m.y)+m.f(1)", "10"},
+		// an attribute holding a closure is named like a map method (get); a closure of the host takes any number of arguments (total)
+		{"get(\"x\")", "m.get(\"x\")", "\"closure:x\""},
+		{"l.map(e->get(\"k\"+e)).size()", "m.l.map(e->m.get(\"k\"+e)).size()", "3"},
+		{"total(x, y)", "m.total(m.x, m.y)", "13"},
+		{"total()+total(x)+total(x, y, 1)", "m.total()+m.total(m.x)+m.total(m.x, m.y, 1)", "24"},
+		{"l.map(e->total(e, x)).sum()", "m.l.map(e->m.total(e, m.x)).sum()", "36"},
 	}
 }
 
@@ -268,9 +274,31 @@ func c16Raw(c *wk.Case, g *value.FunctionGenerator, it [3]string) {
 	}, Args: 1, IsPure: true})
 	withF := func(m value.Value, wrapped bool) value.Value {
 		mm, _ := m.ToMap()
-		put, err := mm.PutM(funcGen.NewEmptyStack[value.Value]().Init(mm, value.String("f"), fclo))
-		if err != nil {
-			panic(err)
+		getClo := value.Closure(funcGen.Function[value.Value]{Func: func(st funcGen.Stack[value.Value], cs []value.Value) (value.Value, error) {
+			s, _ := st.Get(0).ToString(st)
+			return value.String("closure:" + s), nil
+		}, Args: 1, IsPure: true})
+		totalClo := value.Closure(funcGen.Function[value.Value]{Func: func(st funcGen.Stack[value.Value], cs []value.Value) (value.Value, error) {
+			sum := value.Int(0)
+			for i := 0; i < st.Size(); i++ {
+				v, ok := st.Get(i).(value.Int)
+				if !ok {
+					return nil, fmt.Errorf("total needs ints")
+				}
+				sum += v
+			}
+			return sum, nil
+		}, Args: -1, IsPure: true})
+		put := mm
+		for _, kv := range []struct {
+			k string
+			v value.Value
+		}{{"f", fclo}, {"get", getClo}, {"total", totalClo}} {
+			var err error
+			put, err = put.PutM(funcGen.NewEmptyStack[value.Value]().Init(put, value.String(kv.k), kv.v))
+			if err != nil {
+				panic(err)
+			}
 		}
 		var out value.Value = put
 		if wrapped {
